@@ -97,6 +97,39 @@ def report_certificates(ctx, jobs, results, nprog, prefix, native, T=1):
             rep.inconclusive(name, "certificate not proved (%s) and no counterexample found" % r.get("status"), r.get("solve_s", 0.0), "cvc5-ff", **extra)
 
 
+def concrete_large_rows(ctx, native, rest, prefix, thorough, limit=7000):
+    """Rows above the certificate bound: the public encoder path must build (release) and its real result on tagged data
+    must satisfy every LDPC/HDPC/LT relation; its first repair packets must be Enc of that C (concrete)."""
+    rep = ctx.report
+    t0 = time.time()
+    failed, wrong = [], []
+    for kp in rest:
+        out = native.run(["csolve", kp, 1], release=True, timeout=3600)
+        if not out.startswith("csolved"):
+            failed.append((kp, out[:120]))
+            continue
+        if kp > limit and not thorough:
+            continue            # quick: the largest rows are only built (the Python-side check costs minutes there)
+        r = parse_encsolve(out)
+        p = rfc.Params(kp)
+        bad = cert.check_system_concrete(p, r["C"], range(p.Kp), r["src"], 1)
+        rp = [bytes.fromhex(x) for ln in out.splitlines() if ln.startswith("REPAIR ") for x in ln[7:].split(",")]
+        for i, got in enumerate(rp):
+            if got != rfc.enc_symbol(p, r["C"], p.Kp + i, 1):
+                bad.append("repair packet %d != Enc(C, Tuple[K', K'+%d])" % (i, i))
+        if bad:
+            wrong.append((kp, bad[:4]))
+    for kp, msg in failed:
+        rep.violated("%s/native/build-K'=%d" % (prefix, kp), "build K'=%d" % kp, "SourceBlockEncoder::new for a %d-symbol block fails: %s" % (kp, msg), {"kind": "plan", "K": kp}, 0.0, "native")
+    for kp, bad in wrong:
+        rep.violated("%s/native/concrete-system-K'=%d" % (prefix, kp), "concrete K'=%d" % kp, "intermediate symbols / repair packets of a K'=%d block violate %s on tagged data" % (kp, bad),
+                     {"kind": "encoder-native", "K": kp, "violated_rows": bad}, 0.0, "native")
+    if not failed and not wrong:
+        rep.held("%s/native/every-listed-K'-builds-and-meets-the-RFC-system-on-tagged-data" % prefix,
+                 "%d rows above the certificate bound built in release (largest %d); concrete LDPC/HDPC/LT + repair-packet check of the real result" % (len(rest), max(rest)),
+                 time.time() - t0, "native/concrete", rows=len(rest))
+
+
 def run(ctx):
     rep = ctx.report
     thorough = ctx.tier == "thorough"
@@ -108,7 +141,7 @@ def run(ctx):
     rep.functions = ["encoder::gen_intermediate_symbols", "encoder::gen_intermediate_symbols_with_plan", "encoder::SourceBlockEncodingPlan::generate",
                      "constraint_matrix::generate_constraint_matrix::<DenseBinaryMatrix|SparseBinaryMatrix>", "pi_solver::IntermediateSymbolDecoder::{new,execute} (all five phases)",
                      "operation_vector::perform_op", "symbol_slab::SymbolSlab::{add_assign,mulassign_scalar,fma,set_reorder}"]
-    rep.bounds = {"Table-2 rows": "every K' <= %d (%d rows) certified for all data; all 477 rows built natively in release (thorough) / a spread of 24 rows plus the rows whose P, W or L sits on a 64-bit word boundary (quick)" % (bound, len(kps)),
+    rep.bounds = {"Table-2 rows": "every K' <= %d (%d rows) certified for all data; all 477 rows built natively in release (thorough) / every row up to K'=1200, a spread of 24 larger rows and the rows whose P, W or L sits on a 64-bit word boundary (quick)" % (bound, len(kps)),
                   "back-ends": "dense (threshold 60000) and sparse (threshold 0) direct solves, plan generated with the default threshold and replayed",
                   "profiles": "debug-assertions+overflow-checks and release", "data": "all source symbols symbolic (8 F_2 variables per byte column)"}
     rep.assumptions = ["the F_2 meaning of AddAssign/MulAssign/FMA/Reorder is tied to the real kernels by C09-C11 (and cross-checked here on tagged data by replaying the program in the checker)",
@@ -134,30 +167,10 @@ def run(ctx):
             p = rfc.Params(r[0])
             if p.P % 64 == 0 or any(v % 64 in (0, 63) for v in (p.W, p.L)) and len(edge) < 14:
                 edge.append(r[0])
-        rest = sorted(set(spread + edge))
-    t0 = time.time()
-    failed = []
-    wrong = []
-    for kp in rest:
-        out = native.run(["csolve", kp, 1], release=True, timeout=3600)
-        if not out.startswith("csolved"):
-            failed.append((kp, out[:120]))
-            continue
-        # beyond the certificate bound: at least the real result on tagged data must satisfy every RFC relation (concrete)
-        if kp > 7000 and not thorough:
-            continue            # quick: the largest rows are only built (the Python-side check costs minutes there)
-        r = parse_encsolve(out)
-        p = rfc.Params(kp)
-        bad = cert.check_system_concrete(p, r["C"], range(p.Kp), r["src"], 1)
-        if bad:
-            wrong.append((kp, bad[:4]))
-    for kp, bad in wrong:
-        rep.violated("c06/native/concrete-system-K'=%d" % kp, "concrete K'=%d" % kp, "intermediate symbols of a K'=%d block violate %s on tagged data" % (kp, bad),
-                     {"kind": "encoder-native", "K": kp, "violated_rows": bad}, 0.0, "native")
-    for kp, msg in failed:
-        rep.violated("c06/native/build-K'=%d" % kp, "build K'=%d" % kp, "SourceBlockEncodingPlan::generate(%d) fails: %s" % (kp, msg), {"kind": "plan", "K": kp}, 0.0, "native")
-    if not failed and not wrong:
-        rep.held("c06/native/every-listed-K'-builds-and-meets-the-RFC-system-on-tagged-data", "%d rows above the certificate bound built in release (largest %d); concrete LDPC/HDPC/LT check of the real result" % (len(rest), max(rest)), time.time() - t0, "native/concrete", rows=len(rest))
+        # every row up to K' = 1200 is cheap to build and check concretely (about a second each)
+        small = [r[0] for r in rfc.TABLE2 if bound < r[0] <= 1200]
+        rest = sorted(set(spread + edge + small))
+    concrete_large_rows(ctx, native, rest, "c06", thorough)
     results, nprog = certify_many(jobs, "enc", ctx.jobs, tlimit=3000 if thorough else 600)
     report_certificates(ctx, jobs, results, nprog, "c06", native)
     rep.coverage["programs"] = nprog
